@@ -5,6 +5,7 @@ package netpoll
 import (
 	"context"
 	"errors"
+	"time"
 )
 
 // C12 — a closed connection answers with errors, not panics or hangs (DESIGN 5.14).
@@ -253,5 +254,54 @@ func verifHarness_C12_closed(param int) {
 	verifAssert(err == nil, "C12/close-after-call-error")
 	buffered = c.inputBuffer.Len()
 	verifCall12(c, m, buffered, false, "C12/after-close")
+	verifReach("end")
+}
+
+// The same question on a connection that has a read timeout and whose read timer already
+// exists from an earlier timed read (stopped: not armed, channel drained). A reader call that
+// needs more than is buffered must still answer at once after a close — the epilogue of the
+// timed wait ("stop the timer, else drain its channel") must not wait for a tick that will
+// never come.
+//
+//verif:bounds 9 reader calls x {user close, peer close}; read timeout set, its timer exists and is stopped; input 0..8 bytes; no timer expiry
+//verif:param 0 17
+//verif:loop 40
+//verif:noblock
+//verif:replay interp
+func verifHarness_C12_closedtimed(param int) {
+	m := param % 9 // m12Next .. m12Read
+	mode := param / 9
+	verifTimerN = 0
+	verifTimers[0], verifTimers[1] = nil, nil
+	c := verifNewConn(verifConnCfg{closeCBs: 1})
+	op := c.operator
+	pl := op.poll.(*defaultPoll)
+	c.readTimeout = time.Second
+	c.readTimer = verifMakeTimer() // not armed, empty channel
+	in := verifNondetInt("input")
+	verifAssume(in >= 0)
+	verifAssume(in <= 8)
+	if in > 0 {
+		vs := make([][]byte, 1)
+		c.inputs(vs)
+		c.inputAck(in)
+	}
+	if mode == 0 {
+		c.Close()
+	} else {
+		if op.do() {
+			pl.appendHup(op)
+		}
+		pl.onhups()
+		for verifRunPending() {
+		}
+	}
+	for verifRunPending() {
+	}
+	verifReach("closed")
+	buffered := c.inputBuffer.Len()
+	peerOnly := c.isCloseBy(poller)
+	verifCall12(c, m, buffered, peerOnly, "C12/timed/first-call")
+	verifCall12(c, m, c.inputBuffer.Len(), peerOnly, "C12/timed/second-call")
 	verifReach("end")
 }
